@@ -7,7 +7,8 @@ import tempfile
 
 import vlib
 from vlib import Spec
-from C17 import ZOO, ZOO_NAMES, NONE, enc_val, dec_val, normalise, zoo_cases, parse_4050, has, read_corpus
+from C17 import (ZOO, ZOO_NAMES, NONE, enc_val, dec_val, normalise, zoo_cases, parse_4050, has, read_corpus,
+                 null_lists, drop_null_lists)
 
 PROTOC = shutil.which("protoc") or "/usr/bin/protoc"
 SCALARS = {"bool": 1, "uint32": 2, "uint64": 3, "sint32": 4, "sint64": 5, "string": 6, "bytes": 7}
@@ -309,7 +310,7 @@ class C18(Spec):
                   "components, SETs with explicit tags, lists of lists and list alternatives. Tie: the real generator's .proto text "
                   "is parsed and compared with schema_of, validated by protoc, and the real writer's bytes are decoded by protoc "
                   "--decode and by the extracted Coq decoder and compared with the value.")
-    rule = ("all 18 message types of the zoo x value styles {default-ish, random with boundary integers, big}, every CHOICE "
+    rule = ("all 19 message types of the zoo x value styles {default-ish, random with boundary integers, big}, every CHOICE "
             "alternative, every integer boundary; each case: real bytes decoded by protoc under the real .proto, Coq pb_decode "
             "under schema_of, both compared with the value. non-trivial = at least one byte written; distinct = distinct case line")
     assumptions_text = ["protoc 3.21.12 as the independent decoder (absent -> Coq reference decoder only)", "64-bit usize"]
@@ -422,11 +423,18 @@ class C18(Spec):
             fam = "choice_null_alternative_empty"
         else:
             fam = "decode_mismatch"
+        # a SEQUENCE OF NULL holding n > 0 elements: the schema promises n `bytes` entries, none is written
+        lost = null_lists(t, v) > 0 and fam == "decode_mismatch"
+        v_lost = drop_null_lists(t, v) if lost else None
         # (i) Coq reference decoder under schema_of (on the model's bytes, which the tie shows equal)
         if ref is not None:
             r = list(map(int, ref.split()))
             want = expected_dump(t, v, tid)
             if r != want:
+                if lost and r == expected_dump(t, v_lost, tid):
+                    return ("list_of_null_elements_missing",
+                            "Coq pb_decode under schema_of sees no element of a SEQUENCE OF NULL holding %d: %s, value says %s"
+                            % (null_lists(t, v), str(r)[:100], str(want)[:100]))
                 return (fam, "Coq pb_decode under schema_of gives %s, value says %s" % (str(r)[:100], str(want)[:100]))
         # (ii) protoc under the real .proto
         if st["protoc"] and st["parse_error"] is None and st.get("zoo.proto.rc") == 0:
@@ -435,6 +443,10 @@ class C18(Spec):
                 return (fam if fam != "decode_mismatch" else "protoc_rejects_bytes", "protoc --decode failed: %s" % d[1])
             got = canon_text(d[1])
             want = expected(st["defs"], t, v, ZOO_NAMES[tid], tid)
+            if lost and not has_unknown(d[1]) and got != want and got == expected(st["defs"], t, v_lost, ZOO_NAMES[tid], tid):
+                return ("list_of_null_elements_missing",
+                        "protoc sees no element of a SEQUENCE OF NULL holding %d: %s, value says %s"
+                        % (null_lists(t, v), str(got)[:110], str(want)[:110]))
             if got != want or has_unknown(d[1]):
                 return (fam, "protoc decodes %s%s, value says %s" % (str(got)[:110], " (+unknown fields)" if has_unknown(d[1]) else "", str(want)[:110]))
         # (iii) the same bytes under the importing module's file of the two-module zoo (same message shape, component
